@@ -11,14 +11,15 @@ use common::*;
 fn groups_for(prop: &str, ctx: &Ctx) -> Vec<Box<dyn Group>> {
     use groups::*;
     match prop {
-        "C19" => vec![Box::new(c19::Split), Box::new(c19::Msg), Box::new(c19::Dispatch::new(ctx))],
+        "C19" => vec![Box::new(c19::Split), Box::new(c19::Msg), Box::new(c19::Dispatch::new(ctx)), Box::new(c19::InFlight)],
         "C09" => vec![Box::new(c09::Reply), Box::new(c09::Tiling)],
         "C12" => vec![Box::new(c12::Run), Box::new(c12::Serve)],
         "C18" => vec![Box::new(c18::Write), Box::new(c18::Replace), Box::new(c18::ReadAll)],
         "C16" => vec![Box::new(c16::Ops), Box::new(c16::Present), Box::new(c16::Trace)],
         "C15" => vec![Box::new(c15::Route), Box::new(c15::Isolation), Box::new(c15::Conn)],
         "C14" => vec![Box::new(c14::Rules), Box::new(c14::NonceRewrite::new()), Box::new(c14::CspHeader), Box::new(c14::Chain)],
-        "C01" => vec![Box::new(c01::PathOk), Box::new(c01::Read::new(ctx))],
+        "C01" => vec![Box::new(c01::PathOk), Box::new(c01::San), Box::new(c01::Read::new(ctx))],
+        "C07" => vec![Box::new(c07::Request1)],
         _ => vec![],
     }
 }
